@@ -121,13 +121,20 @@ Definition shape_ok (I : inst) : bool :=
    cells, tiny coupling coefficients) are held to the same relative accuracy *)
 Definition nearr (tol scale x y : Q) : bool := Qle_bool (Qabs (x - y)) (tol * scale).
 
+(* magnitude of the expected force vector -p*(alpha n_f) of the face that row q belongs to
+   (rows are face-major: q = f * nd + component) *)
+Definition face_mag (I : inst) (q : nat) : Q :=
+  fold_right Qplus 0
+    (map (fun l => Qabs (grad_target I ((q / i_nd I) * i_nd I + l))) (seq 0 (i_nd I))).
+
 Definition rel_ok (tol : Q) (I : inst) : bool :=
   forallb (fun c =>
     forallb (fun m => nearr tol (rabs (nth c (i_drows I) []) (basis I m) + Qabs (div_target I c m))
                             (rdot (nth c (i_drows I) []) (basis I m)) (div_target I c m))
             (seq 0 (nparam I)))
     (seq 0 (i_nc I))
-  && forallb (fun q => nearr tol (rabs (nth q (i_grows I) []) ones + Qabs (grad_target I q))
+  && forallb (fun q => nearr tol (rabs (nth q (i_grows I) []) ones + Qabs (grad_target I q)
+                                  + face_mag I q)
                              (rdot (nth q (i_grows I) []) ones) (grad_target I q))
              (seq 0 (i_nd I * i_nf I)).
 
